@@ -57,6 +57,8 @@ type System struct {
 	sync.Mutex
 	cron    cron.Cronner
 	storage Storage
+	// storageLock guards the lazy creation (and the closing) of storage.
+	storageLock sync.Mutex
 	config  SystemConfig
 	control unsafe.Pointer // *SystemControl
 	stats   ServiceStats
@@ -708,7 +710,11 @@ func (sys *System) GetCachedLocations(ctx *Context) []string {
 }
 
 func (sys *System) ensureStorage(ctx *Context) (Storage, error) {
-	// Assumes we have the sys lock
+	// Concurrent first requests get here without any lock: without
+	// this one each could make its own Storage, and all but the
+	// last would be orphaned together with what was written to them.
+	sys.storageLock.Lock()
+	defer sys.storageLock.Unlock()
 	if sys.storage != nil {
 		return sys.storage, nil
 	}
@@ -729,6 +735,8 @@ func (sys *System) ensureStorage(ctx *Context) (Storage, error) {
 // might not really do anything (depending on the Storage, of course).
 func (sys *System) Close(ctx *Context) error {
 	Log(INFO, ctx, "System.Close")
+	sys.storageLock.Lock()
+	defer sys.storageLock.Unlock()
 	if sys.storage != nil {
 		err := sys.storage.Close(ctx)
 		sys.storage = nil // ?
